@@ -407,6 +407,9 @@ func (e *Engine) applyErrOperand(v ssa.Value, b *ssa.BasicBlock, g *Graph, state
 				return e.mulCall(call, cal, ModeErr, states, "")
 			}
 		}
+		if out, ok := e.mulDynamic(call, idx, states, ""); ok {
+			return out
+		}
 		if cal := call.Common().StaticCallee(); cal != nil {
 			switch cal.String() {
 			case "go.uber.org/multierr.Combine":
@@ -445,6 +448,23 @@ func callOf(v ssa.Value) (*ssa.Call, int) {
 	case *ssa.Extract:
 		if c, ok := x.Tuple.(*ssa.Call); ok {
 			return c, x.Index
+		}
+	case *ssa.UnOp:
+		// a local that lives in memory (a named result whose address a deferred
+		// call holds) read back right after it was assigned: `err = f(); if err != nil`
+		if al, ok := x.X.(*ssa.Alloc); ok && x.Op == token.MUL && slotIsPrivate(al) {
+			var last *ssa.Store
+			for _, in := range x.Block().Instrs {
+				if in == ssa.Instruction(x) {
+					break
+				}
+				if st, ok := in.(*ssa.Store); ok && st.Addr == ssa.Value(al) {
+					last = st
+				}
+			}
+			if last != nil {
+				return callOf(last.Val)
+			}
 		}
 	}
 	return nil, 0
@@ -521,6 +541,37 @@ func (e *Engine) sliceElems(v ssa.Value) []ssa.Value {
 
 // SliceElems exposes sliceElems.
 func (e *Engine) SliceElems(v ssa.Value) []ssa.Value { return e.sliceElems(v) }
+
+// mulDynamic: the error result of a call through a function value (a step
+// passed to a helper as a parameter) that, on every state's call string,
+// is a known repository function or function literal: multiply by its
+// alternatives as for a static call.
+func (e *Engine) mulDynamic(call *ssa.Call, idx int, states []state, loop string) ([]state, bool) {
+	com := call.Common()
+	if com.StaticCallee() != nil || com.IsInvoke() || len(states) == 0 {
+		return nil, false
+	}
+	if _, isBuiltin := com.Value.(*ssa.Builtin); isBuiltin {
+		return nil, false
+	}
+	var out []state
+	for _, st := range states {
+		fv := StripConv(e.Eval(com.Value, st.ctx))
+		if fv.Op != OpClosure && fv.Op != OpFunc {
+			return nil, false
+		}
+		target := e.funcByShort(fv.Name)
+		if target == nil || !e.P.InRepo(target) || target.Blocks == nil || e.Atoms[target] {
+			return nil, false
+		}
+		res := target.Signature.Results()
+		if res.Len() == 0 || !isErrorType(res.At(res.Len()-1).Type()) || (idx >= 0 && idx != res.Len()-1) {
+			return nil, false
+		}
+		out = append(out, e.mulCall(call, target, ModeErr, []state{st}, loop)...)
+	}
+	return out, true
+}
 
 // mulCall multiplies states by the alternatives of a callee.
 func (e *Engine) mulCall(call ssa.CallInstruction, cal *ssa.Function, mode Mode, states []state, loop string) []state {
@@ -651,6 +702,9 @@ func (e *Engine) expand(cond ssa.Value, want bool, states []state, loop string, 
 			if call, idx := callOf(val); call != nil && wantNil {
 				if cal := e.CalleeOf(call); cal != nil && (idx < 0 || idx == cal.Signature.Results().Len()-1) {
 					return e.mulCall(call, cal, ModeErr, states, loop)
+				}
+				if out, ok := e.mulDynamic(call, idx, states, loop); ok {
+					return out
 				}
 			}
 		}
@@ -1002,6 +1056,7 @@ type Frame struct {
 // (instruction, frame).
 func (e *Engine) Walk(fn *ssa.Function, descendAtoms bool, visit func(in ssa.Instruction, fr Frame)) {
 	seen := map[graphKey]bool{}
+	entered := map[*ssa.Function]bool{} // function values entered at a resolved call with bound arguments
 	var walk func(fn *ssa.Function, ctx *Ctx)
 	walk = func(fn *ssa.Function, ctx *Ctx) {
 		k := graphKey{fn, ctx}
@@ -1024,6 +1079,17 @@ func (e *Engine) Walk(fn *ssa.Function, descendAtoms bool, visit func(in ssa.Ins
 					if mc, ok := c.Common().Value.(*ssa.MakeClosure); ok {
 						if f, ok := mc.Fn.(*ssa.Function); ok && e.P.InRepo(f) {
 							walk(f, e.Enter(ctx, c, f))
+						}
+					} else if com := c.Common(); cal == nil && !com.IsInvoke() {
+						// a call through a function value that is, on this call string, a
+						// known function or function literal (a step handed to a helper)
+						if _, isBuiltin := com.Value.(*ssa.Builtin); !isBuiltin {
+							if fv := StripConv(e.Eval(com.Value, ctx)); fv.Op == OpClosure || fv.Op == OpFunc {
+								if t := e.funcByShort(fv.Name); t != nil && e.P.InRepo(t) && t.Blocks != nil && !e.Atoms[t] {
+									entered[t] = true
+									walk(t, e.Enter(ctx, c, t))
+								}
+							}
 						}
 					}
 				}
@@ -1065,7 +1131,7 @@ func (e *Engine) Walk(fn *ssa.Function, descendAtoms bool, visit func(in ssa.Ins
 			}
 		}
 		for _, a := range fn.AnonFuncs {
-			if made[a] {
+			if made[a] && !entered[a] {
 				walk(a, e.Enter(ctx, nil, a))
 			}
 		}
